@@ -910,7 +910,10 @@ Setting & Setting::operator=(const long long &value)
 {
   assertType(TypeInt64);
 
-  config_setting_set_int64(_setting, value);
+  // With auto-conversion the target may be an int setting, which can only
+  // hold values in the int range.
+  if(! config_setting_set_int64(_setting, value))
+    throw SettingRangeException(*this);
 
   return(*this);
 }
